@@ -2058,4 +2058,280 @@ func findInRange(ctx context.Context, s *stater, lower, upper *State, timestamp 
 	return window.upper, nil
 }
 `},
+	// named constant (the minimum sequence number through another constant)
+	{Name: "b-min-named-first-sequence", File: "replication/search.go",
+		Find: `	minHour   = 1 // up to 2013-07-14T12:00:00Z
+`,
+		Replace: `	firstSeqNum = 1 // the numbering of every replication directory starts here
+	minHour   = firstSeqNum // up to 2013-07-14T12:00:00Z
+`},
+	// representation change (the caller keeps both bounds in one struct, assigns the finder's results into its fields and calls the binary search as a method of it)
+	{Name: "b-search-window-method", File: "replication/search.go",
+		Find: `	lower, err := s.State(ctx, s.Min)
+	if err != nil && !NotFound(err) {
+		return nil, err
+	}
+
+	if lower == nil {
+		// now we need to find a lower bound state manually.
+		// This can have edge cases if there are missing sequence numbers.
+		var err error
+		lower, upper, err = findBound(ctx, s, upper, timestamp)
+		if err != nil {
+			return nil, err
+		}
+	}
+
+	if !timestamp.After(lower.Timestamp) {
+		// the lowest state is already at or after the timestamp.
+		return lower, nil
+	}
+
+	return findInRange(ctx, s, lower, upper, timestamp)
+}
+
+func findBound(ctx context.Context, s *stater, upper *State, timestamp time.Time) (*State, *State, error) {
+	var (
+		lowerID uint64 = 1
+		lower   *State
+		err     error
+	)
+
+	// we need to find the lower bound
+	for lower == nil {
+		lower, err = s.State(ctx, lowerID)
+
+		if err != nil && !NotFound(err) {
+			return nil, nil, err
+		}
+
+		if lower != nil && !timestamp.After(lower.Timestamp) {
+			if lower.SeqNum+1 >= upper.SeqNum {
+				return lower, upper, nil // edge case if there are only two sequence numbers
+			}
+
+			// in our search for lower we found a new upper bound
+			upper = lower
+			lower = nil
+			lowerID = 1
+		}
+
+		if lower != nil {
+			break
+		}
+
+		// no lower yet, so try a higher id (binary search wise)
+		newID := (lowerID + upper.SeqNum) / 2
+		if newID <= lowerID {
+			// nothing suitable found, so upper is probably the best we can do
+			return upper, upper, nil
+		}
+		lowerID = newID
+	}
+
+	return lower, upper, nil
+}
+
+func findInRange(ctx context.Context, s *stater, lower, upper *State, timestamp time.Time) (*State, error) {
+	// we do a binary search through the range to find the sequence number
+	for lower.SeqNum+1 < upper.SeqNum {
+		// could do better here
+		splitID := (lower.SeqNum + upper.SeqNum) / 2
+
+		split, err := s.State(ctx, splitID)
+		if err != nil && !NotFound(err) {
+			return nil, err
+		}
+
+		if split == nil {
+			// file missing, search the next towards lower
+			sID := splitID - 1
+
+			for split == nil && lower.SeqNum < sID {
+				split, err = s.State(ctx, sID)
+				if err != nil && !NotFound(err) {
+					return nil, err
+				}
+
+				sID--
+			}
+		}
+
+		if split == nil {
+			// still missing? search the next towards upper
+			sID := splitID + 1
+
+			for split == nil && sID < upper.SeqNum {
+				split, err = s.State(ctx, sID)
+				if err != nil && !NotFound(err) {
+					return nil, err
+				}
+
+				sID++
+			}
+		}
+
+		if split == nil {
+			// nothing between lower and upper, so upper is
+			// the first state at or after the timestamp.
+			return upper, nil
+		}
+
+		// set the new boundary
+		if timestamp.After(split.Timestamp) {
+			lower = split
+		} else {
+			upper = split
+		}
+	}
+
+	// timestamp is now between lower and upper, we want to return the upper.
+	return upper, nil
+}
+`,
+		Replace: `	w := window{upper: upper}
+	if w.lower, err = s.State(ctx, s.Min); err != nil && !NotFound(err) {
+		return nil, err
+	}
+
+	if w.lower == nil {
+		// now we need to find a lower bound state manually.
+		// This can have edge cases if there are missing sequence numbers.
+		w.lower, w.upper, err = findBound(ctx, s, upper, timestamp)
+		if err != nil {
+			return nil, err
+		}
+	}
+
+	if !timestamp.After(w.lower.Timestamp) {
+		// the lowest state is already at or after the timestamp.
+		return w.lower, nil
+	}
+
+	return w.search(ctx, s, timestamp)
+}
+
+func findBound(ctx context.Context, s *stater, upper *State, timestamp time.Time) (*State, *State, error) {
+	var (
+		lowerID uint64 = 1
+		lower   *State
+		err     error
+	)
+
+	// we need to find the lower bound
+	for lower == nil {
+		lower, err = s.State(ctx, lowerID)
+
+		if err != nil && !NotFound(err) {
+			return nil, nil, err
+		}
+
+		if lower != nil && !timestamp.After(lower.Timestamp) {
+			if lower.SeqNum+1 >= upper.SeqNum {
+				return lower, upper, nil // edge case if there are only two sequence numbers
+			}
+
+			// in our search for lower we found a new upper bound
+			upper = lower
+			lower = nil
+			lowerID = 1
+		}
+
+		if lower != nil {
+			break
+		}
+
+		// no lower yet, so try a higher id (binary search wise)
+		newID := (lowerID + upper.SeqNum) / 2
+		if newID <= lowerID {
+			// nothing suitable found, so upper is probably the best we can do
+			return upper, upper, nil
+		}
+		lowerID = newID
+	}
+
+	return lower, upper, nil
+}
+
+// window is the part of the sequence that is still searched: the state looked for
+// is written after lower and is upper at the latest.
+type window struct {
+	lower, upper *State
+}
+
+// search does the binary search through the window.
+func (w *window) search(ctx context.Context, s *stater, timestamp time.Time) (*State, error) {
+	// we do a binary search through the range to find the sequence number
+	for w.lower.SeqNum+1 < w.upper.SeqNum {
+		// could do better here
+		splitID := (w.lower.SeqNum + w.upper.SeqNum) / 2
+
+		split, err := s.State(ctx, splitID)
+		if err != nil && !NotFound(err) {
+			return nil, err
+		}
+
+		if split == nil {
+			// file missing, search the next towards w.lower
+			sID := splitID - 1
+
+			for split == nil && w.lower.SeqNum < sID {
+				split, err = s.State(ctx, sID)
+				if err != nil && !NotFound(err) {
+					return nil, err
+				}
+
+				sID--
+			}
+		}
+
+		if split == nil {
+			// still missing? search the next towards w.upper
+			sID := splitID + 1
+
+			for split == nil && sID < w.upper.SeqNum {
+				split, err = s.State(ctx, sID)
+				if err != nil && !NotFound(err) {
+					return nil, err
+				}
+
+				sID++
+			}
+		}
+
+		if split == nil {
+			// nothing between w.lower and w.upper, so w.upper is
+			// the first state at or after the timestamp.
+			return w.upper, nil
+		}
+
+		// set the new boundary
+		if timestamp.After(split.Timestamp) {
+			w.lower = split
+		} else {
+			w.upper = split
+		}
+	}
+
+	// timestamp is now between w.lower and w.upper, we want to return the w.upper.
+	return w.upper, nil
+}
+`},
+	// representation change (a constant result becomes a lookup in a package-level table, comma-ok form)
+	{Name: "b-dir-lookup-table", File: "replication/interval.go",
+		Find: `func (n HourSeqNum) Dir() string {
+	return "hour"
+}
+`,
+		Replace: `// replicationDirs maps the interval names to the directories on the planet server.
+var replicationDirs = map[string]string{"hourly": "hour", "daily": "day"}
+
+func (n HourSeqNum) Dir() string {
+	dir, ok := replicationDirs["hourly"]
+	if !ok {
+		return ""
+	}
+	return dir
+}
+`},
 }
